@@ -730,7 +730,7 @@ class Obs:
         if save_rng is not None:
             np.savetxt(save_rng, random_numbers, fmt='%i')
 
-        proj = np.vstack([np.bincount(o, minlength=length) for o in random_numbers]) / length
+        proj = np.vstack([np.bincount(o, minlength=length) / len(o) for o in random_numbers])
         ret = np.zeros(samples + 1)
         ret[0] = self.value
         ret[1:] = proj @ (self.deltas[name] + self.r_values[name])
